@@ -34,7 +34,7 @@ BASE_PROFILE: Dict[str, Any] = dict(
     mc=(1, 5), p_async=0.3, p_ret_const=0.12, p_reflect=0.2,
     p_nested_flag=0.3, p_same_inner_twice=0.0, p_p6=0.0, p_explicit_default=0.7,
     shape_bias=[("uniform", 3), ("recent", 2), ("early", 1), ("wide", 1)],
-    p_setup_in_nested=0.0, main_flat=False, all_return=False,
+    p_setup_in_nested=0.0, main_flat=False, all_return=False, p_inner_const=0.0, swarm=("resources", "p_dep", "max_args"),
 )
 
 
@@ -140,9 +140,10 @@ class ProgramGen:
             self.gen_stmt(st)
         if not any(s["k"] in ("call", "dag") for s in st["stmts"]) or (depth > 0 and not self._returnable(st)):
             self.gen_call(st, plain=True)
-        ret = self.gen_ret(st, depth)
-        flaggable = (not st["has_flag"]) and (not st["has_setup"]) and ret["shape"] != "none" and all(
-            e[0] == "v" and not e[2] and self._plain_node_var(st, e[1]) for e in ret["items"])
+        p6 = depth > 0 and p["p_p6"] > 0 and d.bool(p["p_p6"])
+        ret = self.gen_ret(st, depth, p6)
+        plain = all(e[0] == "v" and not e[2] and self._plain_node_var(st, e[1]) for e in ret["items"])
+        flaggable = (not st["has_flag"]) and (not st["has_setup"]) and ret["shape"] != "none" and (plain or p6)
         strict = set()
         for s_ in st["stmts"]:
             es = [s_.get("a"), s_.get("b")] + list(s_.get("args", [])) if s_["k"] in ("op", "uop", "logic", "dag") else []
@@ -154,7 +155,7 @@ class ProgramGen:
         self.dags[dname] = dict(params=params, stmts=st["stmts"], ret=ret,
                                 mc=d.int(*p["mc"]), is_async=(depth == 0 and d.bool(p["p_async"])),
                                 flaggable=flaggable, has_flag=st["has_flag"], has_setup=st["has_setup"],
-                                has_debug=st["has_debug"], inner=sorted(st["used_inner"]),
+                                has_debug=st["has_debug"], inner=sorted(st["used_inner"]), p6=bool(p6 and not plain),
                                 ret_types=st.get("ret_types", []))
         self.order.append(dname)
         return dname
@@ -351,7 +352,7 @@ class ProgramGen:
         st["stmts"].append(dict(k="dag", dag=inner, args=args, flag=flag, out=outs, shape=ret["shape"],
                                 outkeys=outkeys))
 
-    def gen_ret(self, st: dict, depth: int) -> dict:
+    def gen_ret(self, st: dict, depth: int, p6: bool = False) -> dict:
         d, p = self.d, self.prof
         real = self._returnable(st)
         if p["all_return"]:
@@ -368,12 +369,21 @@ class ProgramGen:
                 return {"shape": "none", "items": [], "keys": []}
 
         def item() -> list:
+            if depth > 0 and p["p_inner_const"] and d.bool(p["p_inner_const"]):
+                return ["c", d.pick(["1", "2", "'c'"])]   # known weak spot P7: an inner DAG returning a constant
             if depth == 0 and d.bool(p["p_ret_const"]):
                 return ["c", d.pick(["1", "2", "None", "'c'"])]
-            if depth > 0 and p["p_p6"] and d.bool(p["p_p6"]):
+            if p6 and d.bool(0.6):
+                # known weak spot P6: outputs of a (possibly deactivated) nested DAG that are not plain node results
+                kind = d.pick(["param", "keyed"])
                 pv = [v for v in st["vars"] if v.param]
-                if pv:
+                kv = [v for v in real if not v.nullable and v.type in ELEMS]
+                if kind == "param" and pv:
                     return ["v", d.pick(pv).name, []]
+                if kind == "keyed" and kv:
+                    v = d.pick(kv)
+                    return ["v", v.name, [d.pick(ELEMS[v.type])[0]]]
+                return self.var_expr(self.pick_var(real))[0]
             return self.var_expr(self.pick_var(real))[0]
 
         if shape == "single":
@@ -403,7 +413,28 @@ class ProgramGen:
         st["ret_types"] = types
 
 
+SWARM = {
+    "resources": [[("thread", 5), ("async_thread", 2), ("main_thread", 2)], [("thread", 1)], [("async_thread", 1)],
+                  [("thread", 1), ("async_thread", 1)], [("main_thread", 3), ("thread", 1)], [("thread", 3), ("async_thread", 3), ("main_thread", 3)]],
+    "p_dep": [0.78, 0.5, 0.95],
+    "p_seq": [0.18, 0.0, 0.45],
+    "p_prio": [0.6, 0.0, 1.0],
+    "max_args": [3, 1, 4],
+}
+
+
+def swarm(d: Draw, prof: Dict[str, Any], p: float = 0.35) -> Dict[str, Any]:
+    """Swarm-style variation: with probability p per knob, replace it by one of a few alternative settings (index 0 of the
+    recorded choice keeps the profile's own value, so shrinking falls back to the plain profile)."""
+    out = dict(prof)
+    for k in prof.get("swarm", ()):
+        if d.bool(p):
+            out[k] = d.pick(SWARM[k])
+    return out
+
+
 def gen_program(d: Draw, prof: Dict[str, Any]) -> dict:
+    prof = swarm(d, prof) if prof.get("swarm") else prof
     g = ProgramGen(d, prof)
     spec = g.generate()
     return spec
